@@ -1,11 +1,12 @@
 SPECIFICATION TraceSpec
 CONSTANTS
   Slots = {1, 2}
-  Kinds = {"slp", "hyp", "idt", "pot"}
+  Kinds = {"slp", "hyp", "idt", "pot", "fmm"}
   RegVals = {1, 4}
   SingVals = {3, 4}
   MassCacheKeyed = FALSE
   MassHonoursExplicit = TRUE
+  FmmCacheKeyed = TRUE
   MaxDepth = 1000
   EmitJson = FALSE
 INVARIANT TypeOK
